@@ -5,7 +5,7 @@ from pyvc_contracts_c20_individual import chain_frame
 
 D = "pyhms.demes."
 A = D + "abstract_deme.AbstractDeme."
-ABSTRACT_FIELDS = ["_id", "_started_at", "_sprout_seed", "_level", "_config", "_lsc", "_problem", "_bounds", "_active", "_centroid",
+ABSTRACT_FIELDS = ["$engine_stop", "_id", "_started_at", "_sprout_seed", "_level", "_config", "_lsc", "_problem", "_bounds", "_active", "_centroid",
                    "_history", "_children", "_logger", "_hibernating"]
 
 # what AbstractDeme.__init__ leaves: everything of DemeFresh except the first history entry
